@@ -220,7 +220,7 @@ CHECKS = {
         text="RobustEnv.tla is the input space of the property as a TLA+ environment model (host registry incl. a ghost name, "
              "cascade registrations with missing/self/ghost/garbage source, master / active list / switch request / maintenance / "
              "recovery marks / health records absent, garbage, stale or dangling, mysync processes and mysqld up or down, every "
-             "SQL call failing, ZooKeeper gone); TLC enumerates all its behaviours of length 1 (quick) and 2 (thorough) and "
+             "SQL call failing, ZooKeeper gone); TLC enumerates all its behaviours of length 1 and 2 (quick replays a sample of the latter) and "
              "simulates behaviours of length 8; every behaviour is replayed into the REAL daemon (three hosts, a mysync each, on "
              "the fakes): each action is followed by two rounds of every loop of every live process, then the final state is "
              "held for 68 rounds while goroutines and open connections are counted. Rows (recovered panics, leak counters) are "
